@@ -1,4 +1,5 @@
 import Norad.Lemmas.C16
+import Norad.Lemmas.C16Stable
 /-!
 # C16 — data and image stores keep their invariants and their bytes
 
@@ -147,6 +148,17 @@ theorem get_settled_ignores_disk (s : Store) (disk : Disk) (k k0 : Key) (c : Cel
   | notLoaded => exact absurd rfl hc
   | loaded b => rfl
   | error e => rfl
+
+/-- once an entry has been read (successfully or not), every later `get` of it returns the same
+    result and leaves the store alone, under any interleaving of read-only operations (`get` of any
+    key, `iter`, `keys`, `is_empty`) and arbitrary changes of the disk -/
+theorem get_stable_afterwards (s : Store) (disk : Disk) (k : Key) (r : Except Err Bytes)
+    (h : (get s disk k).2 = some r) (ops : List Op) (hro : ∀ op ∈ ops, op.readOnly = true) :
+    get (run ⟨(get s disk k).1, disk⟩ ops).store (run ⟨(get s disk k).1, disk⟩ ops).disk k
+      = ((run ⟨(get s disk k).1, disk⟩ ops).store, some r) := by
+  obtain ⟨c, hs, hr⟩ := get_settles h
+  obtain ⟨⟨k0, hf⟩, hne⟩ := settled_run (st := ⟨(get s disk k).1, disk⟩) ops hro hs
+  rw [get_settled_ignores_disk _ _ k k0 c hf hne, hr]
 
 /-! ## save -/
 
@@ -325,6 +337,17 @@ theorem store_accepts_trailing_separator_counterexample :
     (insert ⟨.data, []⟩ ['a','/'] []).2 = .ok () ∧ (insert ⟨.image, []⟩ ['a','/'] pngSig).2 = .ok () ∧
     dirish ['a','/'] = true ∧ parse ['a','/'] = parse ['a'] := by decide
 
+/-! ## OPEN (stated, not proved — not counted as obligations)
+
+* `newStore_inv`: for a well-formed listing `t` (entry names are non-empty, contain no `/`, are not
+  `.`/`..`; paths distinct; every proper prefix of an entry is a `dir` entry),
+  `newStore kind t = .ok s → Inv s`.  Needs `parse (keyOfNames ns) = ⟨false, ns.map .normal⟩`.
+  The correspondence checks the listing itself (keys after `LOAD`) on generated trees.
+* `save_never_panics`: under `Inv`, when both forcing passes return `none`, `writesOf` is `some`
+  (the `expect("internal error: should have been checked")` is unreachable).
+* `iter` is independent of the map order (each `get` touches only its own cell).
+-/
+
 /-! ## non-vacuity -/
 
 -- the fix: `a` after `a/b` is refused, as `a/b` after `a` always was
@@ -342,6 +365,13 @@ example :
     let d1 : Disk := fun _ => some [1]
     let d2 : Disk := fun _ => some [2]
     (get (get s d1 ['a']).1 d2 ['a']).2 = some (.ok [1]) := by decide
+-- … also across an `iter` and a disk change in between (`get_stable_afterwards` is not vacuous)
+example :
+    let s : Store := ⟨.data, [(['a'], .notLoaded), (['b'], .notLoaded)]⟩
+    let d1 : Disk := fun _ => some [1]
+    let d2 : Disk := fun _ => none
+    let st := run ⟨(get s d1 ['a']).1, d1⟩ [.setDisk d2, .iter, .get ['b']]
+    (get st.store st.disk ['a']).2 = some (.ok [1]) ∧ (get st.store st.disk ['b']).2 = some (.error .io) := by decide
 -- an error entry refuses the save; a clean store reaches the effects
 example : (saveStores ⟨.data, [(['a'], .notLoaded)]⟩ ⟨.image, []⟩ (fun _ => none) (fun _ => none)).2
     = .refused ['a'] := by decide
